@@ -553,6 +553,11 @@ def needs(op, twin_obj):
         return [("del", op[2])]
     if k == "callm":
         return None if op[2] in netref.LOCAL_ATTRS else [("get", op[2])]
+    if k == "tcallm":
+        d = getattr(T, op[2], None)
+        if op[2] in netref.LOCAL_ATTRS or isinstance(d, property):
+            return None
+        return [("get", op[2])] if callable(d) else []
     if k in ("call", "hash", "repr", "str", "dir", "isinstance", "classof", "fetch"):
         return []
     if k == "cmp":
@@ -634,6 +639,8 @@ def perform(side, op, proxy):
         delattr(x, op[2])
         return None, "remote"
     if k == "callm": return getattr(x, op[2])(*[A(a) for a in op[3]], **{n: A(v) for n, v in op[4]}), "remote"
+    if k == "tcallm":     # the method found on the type, applied to the object: type(x).name(x, ...)
+        return getattr(type(x), op[2])(x, *[A(a) for a in op[3]], **{n: A(v) for n, v in op[4]}), "remote"
     if k == "call": return x(*[A(a) for a in op[2]], **{n: A(v) for n, v in op[3]}), "remote"
     if k == "cmp": return CMPS[op[2]](x, A(op[3])), "remote"
     if k == "hash": return hash(x), "remote"
@@ -709,6 +716,11 @@ class Tap(object):
                 (mod, cls), args = m[2][0], m[2][1]
                 if cls == "AttributeError" and args and type(args[0]) is str and args[0].startswith("cannot access "):
                     self.refusals += 1
+
+
+def fetch_counts(raw_reqs):
+    """the count argument of each HANDLE_BUFFITER request: args = (LABEL_TUPLE, ((LOCAL_REF, id), (LABEL_VALUE, count)))"""
+    return [a[1][1][1] for h, a in raw_reqs if h == "HANDLE_BUFFITER"]
 
 
 def unbox_canon(pkg, idmap):
@@ -835,14 +847,15 @@ def run_case(ctx, case, collect=None):
             rp, vp, how, ep = outcome(w.P, op, True)
             reqs = [(h, a) for h, a in w.tap.reqs if h not in ("HANDLE_DEL", "HANDLE_INSPECT")]
             if collect is not None:
-                collect.append({"cfg": cfg, "op": op, "reqs": [(h, unbox_canon(a, idmap)) for h, a in reqs], "methods": methods,
+                fetches = fetch_counts(reqs) if op[0] == "buffiter" else None
+                collect.append({"cfg": cfg, "op": op, "fetches": fetches, "reqs": [(h, unbox_canon(a, idmap)) for h, a in reqs], "methods": methods,
                                 "twin_type": type(twin_obj), "result": rp, "pred": pred, "back": len(w.tap.back)})
             ctx.count("op:" + op[0])
             where = "step %d %s on %s under %s" % (step, op[0], type(twin_obj).__name__, cfg)
             refused = cfg != "classic" and ep is not None and is_refusal(ep)
             if pred is False or (pred is None and refused):
                 ctx.count("not-permitted:" + cfg)
-                if pred is False and not (ep is not None and isinstance(ep, AttributeError)):
+                if pred is False and op[0] != "func" and not (ep is not None and isinstance(ep, AttributeError)):   # built-in functions may swallow the refusal and fall back
                     report("refusal-expected:%s:%s" % (op[0], cfg), step, short(rp), "AttributeError (name not permitted under %s)" % cfg,
                            where + ": needs a name the configuration does not permit, but was not refused")
                     return sigs
@@ -896,11 +909,19 @@ def type_tag(twin_obj):
     return "callable" if callable(twin_obj) else "other"
 
 
+def getter_fails_with_attribute_error(o, name):
+    d = getattr(type(o), name, None)
+    return isinstance(d, property)
+
+
 def beyond_ssize(v):
     return type(v) is int and not (-2**63 <= v < 2**63)
 
 
 FAMILIES = {
+    "getattr:failing-read-evaluated-twice":
+        "an attribute read that fails with AttributeError on the target is sent twice (__getattribute__, then Python's fallback to "
+        "__getattr__), so a getter with an effect runs twice",
     "isinstance:abstract-base-class":
         "isinstance() against an abstract base class inspects type(proxy) and proxy.__class__ structurally (BaseNetref.__hash__, methods of "
         "`type` on cached built-in classes, a class the caller cannot import arrives as a proxy that is not a type)",
@@ -930,8 +951,10 @@ def classify(op, rp, rt, twin_obj, methods=()):
     # shapes that have been triaged (FAMILIES); one signature each
     if k == "with" and op[2] and has_special(T, "__exit__") and not isinstance(twin_obj, io.IOBase):
         return "ctxexit:exception-class-not-delivered"
-    if k in ("getattr", "callm", "setattr", "delattr") and op[2] in netref.LOCAL_ATTRS:
+    if k in ("getattr", "callm", "tcallm", "setattr", "delattr") and op[2] in netref.LOCAL_ATTRS:
         return "getattr:proxy-local-name"
+    if k in ("getattr", "callm") and rp[0] == "state" and getter_fails_with_attribute_error(twin_obj, op[2]):
+        return "getattr:failing-read-evaluated-twice"
     if k == "isinstance" and type(CLASSES[op[2]]) is not type:
         return "isinstance:abstract-base-class"
     if k in ("getitem", "setitem", "delitem") and "imm" in op[2] and beyond_ssize(mk_value(op[2], {})) and rp[0] == rt[0] == "exc":
@@ -943,7 +966,7 @@ def classify(op, rp, rt, twin_obj, methods=()):
     if k == "buffiter" and not has_special(T, "__iter__") and has_special(T, "__getitem__"):
         return "buffiter:getitem-only-iterable"
     extra = ""
-    if k in ("getattr", "setattr", "delattr", "callm"):
+    if k in ("getattr", "setattr", "delattr", "callm", "tcallm"):
         extra = ":dunder" if op[2].startswith("__") else ""
     elif k in ("binop", "rbinop", "ibinop", "unop", "cmp", "func"):
         extra = ":" + op[2]
@@ -1269,6 +1292,8 @@ def gen_case(r, cfg, nops=25, kind=None):
                     continue
             else:
                 op = [r.choice(["repr", "len", "bool", "iter"]), i]
+            if op[0] == "callm" and r.random() < 0.2 and callable(getattr(type(side.slots[op[1]]), op[2], None)):
+                op = ["tcallm"] + op[1:]
             ops.append(op)
             nd = needs(op, side.slots[op[1]])
             if nd is not None and not permitted(cfg, nd):
@@ -1290,3 +1315,349 @@ def gen_case(r, cfg, nops=25, kind=None):
                 pass
         shutil.rmtree(tmp, ignore_errors=True)
     return {"cfg": cfg, "target": spec, "ops": ops}
+
+
+# ------------------------------------------------------------------------------------------------ correspondence with the model
+
+def tree_facts():
+    """the two facts of the tree the theorems are conditional on, re-translated from C.REPO (coq/gen is shared)"""
+    from tools.pygen import netref as T
+    vals = {it.name: it.coq_term for it in T.translate(C.REPO) if it.kind == "typed"}
+    return {"getattr_repeats": vals.get("getattr_repeats_request") == "true", "ctxexit_delivers": vals.get("ctxexit_delivers") == "true",
+            "translated": sorted(vals)}
+
+
+def model_ops(op, methods, twin_type):
+    """the model operations a primitive harness operation consists of, as (model op sx, operand specs, which proxy: 'target' | 'result'),
+    or None when the interpreter's own fallback chains decide what is asked (then only results are compared)"""
+    k = op[0]
+    ms = methods or []
+    sp = lambda d, n, kw=(): ["special", d, n, list(kw)]
+    if k == "getattr": return [(["getattr", op[2]], [], "target")]
+    if k == "setattr": return [(["setattr", op[2]], [op[3]], "target")]
+    if k == "delattr": return [(["delattr", op[2]], [], "target")]
+    if k == "callm":
+        return [(["getattr", op[2]], [], "target"), (sp("__call__", len(op[3]), [n for n, _ in op[4]]), list(op[3]) + [v for _, v in op[4]], "result")]
+    if k == "call": return [(sp("__call__", len(op[2]), [n for n, _ in op[3]]), list(op[2]) + [v for _, v in op[3]], "target")]
+    if k == "tcallm" and op[2] in ms:
+        return [(sp(op[2], len(op[3]), [n for n, _ in op[4]]), list(op[3]) + [v for _, v in op[4]], "target")]
+    if k == "cmp": return [(sp("__%s__" % op[2], 1), [op[3]], "target")]
+    if k in ("hash", "repr", "str", "dir"): return [(sp("__%s__" % k, 0), [], "target")]
+    if k in ("len", "iter", "next"): return [(sp("__%s__" % k, 0), [], "target")]
+    if k == "bool":
+        for d in ("__bool__", "__len__"):
+            if d in ms:
+                return [(sp(d, 0), [], "target")]
+        return [(sp("__bool__", 0), [], "target")]
+    if k == "unop": return [(sp("__%s__" % op[2], 0), [], "target")]
+    if k in ("getitem", "delitem"): return [(sp("__%s__" % k, 1), [op[2]], "target")]
+    if k == "setitem": return [(sp("__setitem__", 2), [op[2], op[3]], "target")]
+    if k == "contains" and "__contains__" in ms: return [(sp("__contains__", 1), [op[2]], "target")]
+    if k == "binop" and "imm" in op[3]: return [(sp("__%s__" % op[2], 1), [op[3]], "target")]
+    return None
+
+
+STRICT = ("getattr", "setattr", "delattr", "call", "tcallm", "hash", "repr", "str", "dir", "len", "iter", "next", "bool", "unop", "getitem", "setitem",
+          "delitem", "contains")     # exactly the model's requests; for the others the first request must be the model's
+
+
+def op_operand_canon(spec):
+    if "slot" in spec:
+        return ("slot", spec["slot"])
+    return open_tuples(mk_value(spec, {}))
+
+
+def inst_request(rq, target_slot, operands):
+    """model request [handler, [wargs]] with the operation's operands put in -> what unbox_canon gives for the real request"""
+    handler, wargs = rq[0].decode(), rq[1]
+    out = [("slot", target_slot)]
+    for w in wargs:
+        t = w[0].decode()
+        if t == "str":
+            out.append(("val", V.canon(w[1].decode())))
+        elif t == "op":
+            out.append(operands[w[1]] if w[1] < len(operands) else ("missing-operand", w[1]))
+        elif t == "tuple":
+            out.append(("tuple",) + tuple(operands[i] for i in w[1]))
+        elif t == "kw":
+            out.append(("tuple",) + tuple(("tuple", ("val", V.canon(kv[0].decode())), operands[kv[1]]) for kv in w[1]))
+    return handler, ("tuple",) + tuple(out)
+
+
+def correspond(ctx, model, facts, records):
+    """model vs implementation on every recorded step: requests on the wire, permission, and the model's own routing/denotation identity"""
+    queries, index = [], []
+    for ri, rec in enumerate(records):
+        if rec["methods"] is None:
+            continue
+        mo = model_ops(rec["op"], rec["methods"], rec["twin_type"])
+        if mo is None:
+            continue
+        for j, (msx, operands, which) in enumerate(mo):
+            ms = rec["methods"] if which == "target" else ["__call__"]
+            truthy0 = 1
+            queries.append(["op", [CFG_IDS[rec["cfg"]], int(facts["getattr_repeats"]), int(facts["ctxexit_delivers"])], ms, msx, truthy0])
+            index.append((ri, j, operands, which))
+    # buffered iteration: the schedule
+    bq, bidx = [], []
+    for ri, rec in enumerate(records):
+        if rec["op"][0] == "buffiter" and rec.get("fetches") is not None and rec["result"][0] == "ok":
+            n = len(rec["result"][1]) - 1
+            bq.append(["buffiter", rec["op"][2], rec["op"][4], rec["op"][3], n])
+            bidx.append((ri, n))
+    outs = model.batch(queries + bq)
+    per = {}
+    for (ri, j, operands, which), out in zip(index, outs[:len(queries)]):
+        per.setdefault(ri, []).append((j, operands, which, out))
+    for ri, lst in per.items():
+        rec = records[ri]
+        op, cfg = rec["op"], rec["cfg"]
+        ctx.model_traces += 1
+        expected, all_perm, unmodelled = [], True, False
+        for j, operands, which, out in lst:
+            if out == [b"badinput"]:
+                ctx.tie_broken("correspondence:model-input", "op %r" % (op,))
+                unmodelled = True
+                break
+            routed, fb, served, direct_act, forwarded, wf, perm_direct, perm_served = out
+            kind = routed[0].decode()
+            ops_c = [op_operand_canon(s) for s in operands]
+            if forwarded and wf and kind == "send":
+                # T1 on this instance: the handler's action is the operation, its checks are the operation's
+                if served[0] != b"ok" or (served[1][0] != direct_act and not (op[0] == "with")) or bool(perm_served) != bool(perm_direct):
+                    if not (msx_is_exit(direct_act) and not facts["ctxexit_delivers"]):
+                        ctx.tie_broken("correspondence:model-routing-identity", "op %r: served %r direct %r" % (op, served, direct_act))
+            if which == "target":
+                all_perm = all_perm and bool(perm_direct)
+            if kind == "send":
+                tslot = op[1] if which == "target" else None
+                h, args = inst_request(routed[1], tslot, ops_c)
+                expected.append((h, args, which, fb))
+            elif kind in ("local", "raise", "nomethod"):
+                expected.append((None, kind, which, fb))
+                if which == "target":
+                    break            # no attribute value to call
+            else:
+                unmodelled = True
+        if unmodelled:
+            continue
+        # --- permission: the model's reading of the configuration against the harness's own table
+        first_kind = expected[0][0] if expected else None
+        if rec["pred"] is not None and first_kind is not None and op[0] != "callm":
+            if bool(all_perm) != bool(rec["pred"]):
+                ctx.tie_broken("correspondence:permitted", "op %r under %s: model %r harness %r" % (op, cfg, all_perm, rec["pred"]))
+        # --- the requests actually sent
+        obs = rec["reqs"]
+        exp_first = expected[0] if expected else None
+        if exp_first is None:
+            continue
+        if exp_first[0] is None:
+            # answered by the proxy / no such method: nothing is sent for a non-local name; a local name may fall back to one remote read
+            if exp_first[1] == "nomethod" and op[0] in STRICT and obs and not (op[0] == "bool"):
+                ctx.tie_broken("correspondence:requests", "op %r: model says the class has no such method, sent %r" % (op, [h for h, _ in obs]))
+            continue
+        h, args, which, fb = exp_first
+        if not obs:
+            ctx.tie_broken("correspondence:requests", "op %r under %s: model expects %s, nothing was sent" % (op, cfg, h))
+            continue
+        o_h, o_args = obs[0]
+        if which == "target" and (o_h != h or o_args != args):
+            ctx.tie_broken("correspondence:requests", "op %r under %s: model %s %s, sent %s %s" % (op, cfg, h, short(args, 200), o_h, short(o_args, 200)))
+            continue
+        if op[0] in STRICT:
+            want = 1
+            failed_attr = rec["result"] == ("exc", "builtins.AttributeError")
+            if op[0] == "getattr" and fb and failed_attr:
+                want = 2                                  # Python's fallback to __getattr__ repeats the read
+            if len(obs) != want or any(x != obs[0] for x in obs[1:]):
+                ctx.tie_broken("correspondence:requests", "op %r under %s: model expects %d request(s) %s, sent %r" % (op, cfg, want, h, [x[0] for x in obs]))
+        elif op[0] == "callm" and len(expected) > 1 and len(obs) > 1 and expected[1][0] is not None:
+            # the call on the attribute's value: handler and layout (the value's proxy is not a slot yet)
+            h2, args2, _, _ = expected[1]
+            o2h, o2a = obs[-1]
+            if o2h == "HANDLE_CALL" and (h2 != o2h or o2a[2:] != args2[2:]):
+                ctx.tie_broken("correspondence:requests", "op %r: call of the attribute value: model %s %s, sent %s %s" % (op, h2, short(args2[2:], 200), o2h, short(o2a[2:], 200)))
+    for (ri, n), out in zip(bidx, outs[len(queries):]):
+        rec = records[ri]
+        ctx.model_traces += 1
+        if out[0] != b"ok":
+            ctx.tie_broken("correspondence:buffiter", "op %r: model %r" % (rec["op"], out))
+            continue
+        yielded, left, counts = out[1]
+        if len(yielded) != n or left != 0 or list(counts) != list(rec["fetches"]):
+            ctx.tie_broken("correspondence:buffiter", "op %r on %d items: model counts %r left %r, implementation asked %r" % (rec["op"], n, counts, left, rec["fetches"]))
+
+
+def msx_is_exit(direct_act):
+    return direct_act and direct_act[0] == b"exit"
+
+
+# ------------------------------------------------------------------------------------------------ buffered iteration with any parameters
+
+def check_buffiter_params(ctx, model, r, n_cases):
+    """buffiter over a proxied iterator for valid and invalid (chunk, factor, max_chunk): items, what is left, counts asked"""
+    cases, queries = [], []
+    for _ in range(n_cases):
+        n = r.choice([0, 1, 2, 3, 7, 10, 11, 50, 200, 1000])
+        c = r.random()
+        if c < 0.7:
+            chunk, factor, maxc = r.choice([1, 2, 3, 10, 64, 5000]), r.choice([1, 2, 3, 10]), r.choice([1, 2, 7, 100, 1000, 10**6])
+        else:
+            chunk, factor, maxc = r.choice([0, -1, 1, 5]), r.choice([0, -2, 1, 2]), r.choice([0, -3, 1, 4])
+        cases.append((n, chunk, factor, maxc))
+        queries.append(["buffiter", chunk, maxc, factor, n])
+    outs = model.batch(queries) if model else [None] * len(cases)
+    w = World("classic", ["list", []])
+    try:
+        for (n, chunk, factor, maxc), out in zip(cases, outs):
+            target = iter(list(range(n)))
+            p = w.ca._unbox(w.cb._box(target))
+            del w.tap.reqs[:]
+            try:
+                got = ("ok", list(buffiter(p, chunk, maxc, factor)))
+            except Exception as e:
+                got = ("exc", C.exc_enum(e))
+            fetches = fetch_counts(w.tap.reqs)
+            left = len(list(target)) if got[0] == "ok" else None
+            valid = chunk >= 1 and factor >= 1 and maxc >= 1
+            key = ("buffiter", n, chunk, factor, maxc)
+            ctx.case(key, nontrivial=n > 0, sample={"buffiter": [n, chunk, factor, maxc], "fetches": fetches[:8], "outcome": got[0]})
+            ctx.count("buffiter:" + ("valid" if valid else "invalid"))
+            case = {"buffiter_params": [n, chunk, factor, maxc]}
+            if valid and (got != ("ok", list(range(n))) or left != 0):
+                ctx.violation("buffiter:items-differ", case, observed=short(got), expected="all %d items in order, iterator exhausted" % n,
+                              what="buffiter(chunk=%d, factor=%d, max_chunk=%d) over %d items" % (chunk, factor, maxc, n))
+            if factor < 1 and got != ("exc", "ValueError"):
+                ctx.violation("buffiter:factor-below-one-accepted", case, observed=short(got), expected="ValueError", what="factor < 1 must be rejected")
+            if out is not None:
+                ctx.model_traces += 1
+                if out[0] == b"ok":
+                    m = ("ok", list(out[1][0]), out[1][1], list(out[1][2]))
+                    mine = (got[0], got[1] if got[0] == "ok" else None, left, fetches)
+                    if m != mine:
+                        ctx.tie_broken("correspondence:buffiter", "params %r: model %s, implementation %s" % ((n, chunk, factor, maxc), short(m, 200), short(mine, 200)))
+                elif out[0] == b"exc":
+                    if got != ("exc", out[1].decode()):
+                        ctx.tie_broken("correspondence:buffiter", "params %r: model raises %s, implementation %s" % ((n, chunk, factor, maxc), out[1], short(got)))
+                else:
+                    ctx.tie_broken("correspondence:buffiter", "params %r: model %r" % ((n, chunk, factor, maxc), out))
+    finally:
+        w.close()
+
+
+# ------------------------------------------------------------------------------------------------ entry points
+
+def I_(v):
+    return imm(v)
+
+
+CORPUS = [
+    # one clear instance of every shape that has been triaged, then plain sanity
+    {"cfg": "classic", "target": ["cm", "ValueError", False, False], "ops": [["with", 0, "ValueError"], ["getattr", 0, "log"]]},
+    {"cfg": "default", "target": ["cm", "KeyError", False, False], "ops": [["with", 0, None], ["with", 0, "KeyError"], ["callm", 0, "value", [], []]]},
+    {"cfg": "classic", "target": ["vec", [1, 2]], "ops": [["getattr", 0, "__module__"], ["getattr", 0, "__doc__"], ["classof", 0]]},
+    {"cfg": "classic", "target": ["vec", [1, 2]], "ops": [["getattr", 0, "flaky"], ["getattr", 0, "calls"]]},
+    {"cfg": "classic", "target": ["list", [I_(1)]], "ops": [["isinstance", 0, "Callable"], ["isinstance", 0, "Hashable"], ["isinstance", 0, "list"], ["isinstance", 0, "Sequence"]]},
+    {"cfg": "classic", "target": ["listiter", [I_(1)]], "ops": [["binop", 0, "or", I_(3)]]},
+    {"cfg": "classic", "target": ["bytearray", "6162"], "ops": [["func", 0, "bytes"], ["rbinop", 0, "add", I_(b"xy")]]},
+    {"cfg": "classic", "target": ["seq", 3], "ops": [["func", 0, "list"], ["buffiter", 0, 2, 2, 10]]},
+    {"cfg": "classic", "target": ["deque", [I_(1), I_(2)], None], "ops": [["getitem", 0, I_(1)], ["getitem", 0, I_(10**30)]]},
+    {"cfg": "classic", "target": ["list", [I_(3), I_(1), I_(2)]],
+     "ops": [["callm", 0, "append", [I_(4)], []], ["callm", 0, "sort", [], []], ["getitem", 0, I_(0)], ["getitem", 0, I_(9)], ["getitem", 0, I_(slice(1, 3))],
+             ["len", 0], ["iter", 0], ["next", 1], ["func", 0, "list"], ["buffiter", 0, 2, 2, 3], ["contains", 0, I_(4)], ["delitem", 0, I_(0)], ["repr", 0],
+             ["cmp", 0, "eq", {"slot": 0}], ["hash", 0], ["bool", 0], ["dir", 0], ["isinstance", 0, "list"], ["classof", 0], ["setattr", 0, "x", I_(1)],
+             ["tcallm", 0, "sort", [], [["reverse", I_(True)]]], ["tcallm", 0, "index", [I_(4)], []], ["tcallm", 0, "append", [], []]]},
+    {"cfg": "public", "target": ["dict", [[I_("a"), I_(1)], [I_("b"), {"mk": ["list", [I_(2)]]}]]],
+     "ops": [["getitem", 0, I_("a")], ["getitem", 0, I_("zz")], ["getitem", 0, I_("b")], ["callm", 1, "append", [I_(5)], []], ["callm", 0, "keys", [], []],
+             ["func", 2, "sorted"], ["setitem", 0, I_("c"), I_((1, 2))], ["callm", 0, "pop", [I_("a")], []], ["func", 0, "dict"], ["setattr", 0, "x", I_(1)]]},
+    {"cfg": "default", "target": ["vec", [1, 2, 3]],
+     "ops": [["binop", 0, "add", I_(1)], ["binop", 0, "matmul", {"slot": 0}], ["rbinop", 0, "mul", I_(2)], ["ibinop", 0, "iadd", I_(1)], ["cmp", 0, "lt", I_((9, 9, 9))],
+             ["call", 0, [I_(1)], [["k", I_(2)]]], ["callm", 0, "scale", [I_(2)], []], ["getattr", 0, "norm"], ["len", 0], ["func", 0, "int"], ["hash", 0], ["str", 0]]},
+    {"cfg": "classic", "target": ["file", "r+b", b"alpha\nbeta\n".hex()],
+     "ops": [["callm", 0, "readline", [], []], ["callm", 0, "write", [I_(b"X")], []], ["callm", 0, "seek", [I_(0)], []], ["func", 0, "list"], ["with", 0, None],
+             ["callm", 0, "read", [], []], ["getattr", 0, "closed"]]},
+    {"cfg": "classic", "target": ["gen", [I_(1), I_(2), I_(3), I_(4)], 2, "ValueError"], "ops": [["next", 0], ["next", 0], ["next", 0], ["next", 0]]},
+]
+
+
+def check_cases(ctx, model, facts, cases):
+    records = []
+    for case in cases:
+        col = []
+        before = len(ctx.violations)
+        try:
+            sigs = run_case(ctx, case, collect=col)
+        except Exception as e:          # the harness itself failed on this case: report, do not hide
+            import traceback
+            ctx.tie_broken("harness:exception", "%s\n%s" % (json.dumps(case)[:1500], traceback.format_exc()[-1500:]))
+            continue
+        n_perm = sum(1 for c in col if c["pred"] is not False)
+        ctx.case(json.dumps(case, sort_keys=True), nontrivial=(len(col) >= 3 and n_perm >= 2),
+                 sample={"cfg": case["cfg"], "target": case["target"][0], "ops": [o[0] for o in case["ops"]][:12], "differences": sigs})
+        ctx.count("cfg:" + case["cfg"])
+        ctx.count("target:" + case["target"][0])
+        records.extend(col)
+    if model is not None:
+        correspond(ctx, model, facts, records)
+
+
+def run(ctx):
+    r = ctx.rng
+    model = C.Model("proxyops")
+    model = model if model.available() else None
+    facts = tree_facts()
+    ctx.coverage_extra["tree_facts"] = facts
+    ctx.coverage_extra["triaged_shapes"] = FAMILIES
+    ctx.coverage_extra["rule"] = ("a case is a target specification (list, dict, set, bytearray, deque, list/dict iterator, generator (possibly raising), "
+                                  "temp file in 7 modes, user classes with operators/properties/context manager/getitem-only/plain attributes, nested) plus up to 25 "
+                                  "operations generated online against a scratch twin (mostly meaningful indexes, keys, methods; plus out-of-range, wrong-type, missing-name, "
+                                  "arity errors), run under classic/public/default; result and deep state of every reached object compared after every step; "
+                                  "non-trivial = at least 3 steps of which 2 permitted; distinct by the whole case; plus buffiter parameter cases")
+    n_seq, n_buff = (1500, 300) if ctx.quick else (20000, 3000)
+    cases = list(CORPUS)
+    for i in range(n_seq):
+        cfg = r.choice(["classic", "classic", "public", "default"])
+        cases.append(gen_case(r, cfg))
+    for i in range(0, len(cases), 500):
+        check_cases(ctx, model, facts, cases[i:i + 500])
+    check_buffiter_params(ctx, model, r, n_buff)
+
+
+def replay(ctx, rep):
+    case = rep["case"] or {}
+    model = C.Model("proxyops")
+    model = model if model.available() else None
+    facts = tree_facts()
+    if "buffiter_params" in case:
+        n, chunk, factor, maxc = case["buffiter_params"]
+
+        class One(object):
+            def choice(self, l): return l[0]
+            def random(self): return 0.0
+        # replays exactly these parameters
+        w_cases = [(n, chunk, factor, maxc)]
+        _replay_buffiter(ctx, model, w_cases)
+    elif "ops" in case:
+        check_cases(ctx, model, facts, [{"cfg": case["cfg"], "target": case["target"], "ops": case["ops"]}])
+
+
+def _replay_buffiter(ctx, model, params):
+    class Fixed(object):
+        def __init__(self, p): self.p, self.i = p, 0
+    n, chunk, factor, maxc = params[0]
+    w = World("classic", ["list", []])
+    try:
+        target = iter(list(range(n)))
+        p = w.ca._unbox(w.cb._box(target))
+        try:
+            got = ("ok", list(buffiter(p, chunk, maxc, factor)))
+        except Exception as e:
+            got = ("exc", C.exc_enum(e))
+        left = len(list(target)) if got[0] == "ok" else None
+        ctx.case(("buffiter", n, chunk, factor, maxc), nontrivial=True)
+        if chunk >= 1 and factor >= 1 and maxc >= 1 and (got != ("ok", list(range(n))) or left != 0):
+            ctx.violation("buffiter:items-differ", {"buffiter_params": [n, chunk, factor, maxc]}, observed=short(got), expected="all items", what="replay")
+        if factor < 1 and got != ("exc", "ValueError"):
+            ctx.violation("buffiter:factor-below-one-accepted", {"buffiter_params": [n, chunk, factor, maxc]}, observed=short(got), expected="ValueError", what="replay")
+    finally:
+        w.close()
